@@ -107,6 +107,8 @@ FAKES = {
     'killed_after_reading': '#!/bin/sh\ncat > /dev/null\nkill -9 $$\n',
     'killed_after_partial_output': '#!/bin/sh\ncat > /dev/null\necho "pub mod partial {"\nkill -9 $$\n',
     'empty_output': '#!/bin/sh\ncat > /dev/null\nexit 0\n',
+    # stops reading part way, prints what it read, exits 0: above the pipe buffer the writer sees a broken pipe
+    'exit0_after_partial_read_with_output': '#!/bin/sh\nhead -c 3000\nexit 0\n',
     'invalid_utf8': '#!/bin/sh\ncat > /dev/null\nprintf "\\377\\376"\nexit 0\n',
     # like the real rustfmt, read everything before printing (a streaming filter would dead-lock on outputs above the pipe buffer)
     'working': '#!/bin/sh\nt=$(mktemp)\ncat > "$t"\ncat "$t"\nrm -f "$t"\nexit 0\n',
@@ -117,7 +119,9 @@ def scenario_of(log):
     if not log.get('spawn'):
         return 'absent'
     if not log.get('write'):
-        return 'exit0_without_reading' if log.get('success') else 'exit1_without_reading'
+        if log.get('success'):
+            return 'exit0_after_partial_read_with_output' if log.get('stdout') == 1 else 'exit0_without_reading'
+        return 'exit1_without_reading'
     if log.get('how') == 2:
         return 'killed_after_partial_output' if log.get('stdout') else 'killed_after_reading'
     if not log.get('success'):
@@ -261,7 +265,7 @@ def native_all(ctx, seen=None):
     """every fault scenario on the real build, below and above the pipe buffer: all must return the program"""
     seen = {} if seen is None else seen
     for sc in FAKES:
-        for big in ((False, True) if ctx.tier == 'thorough' or sc in ('exit0_without_reading', 'killed', 'killed_after_partial_output', 'working') else (False,)):
+        for big in ((False, True) if ctx.tier == 'thorough' or sc in ('exit0_without_reading', 'exit0_after_partial_read_with_output', 'killed', 'killed_after_partial_output', 'working') else (False,)):
             r, r0 = native_run(ctx, sc, big)
             good = 'ok' in r and 'ok' in r0 and same_program(ctx, r['ok'], r0['ok'])
             ctx.sample({'scenario': sc, 'output_over_64KiB': big, 'returns_same_program': good})
